@@ -285,6 +285,9 @@ class VolumeMesh(Mesh):
             if self.mesh.cell_faces.has_attribute("adjacent_cell"):
                 self._adjC2C = self.mesh.cell_faces.get_attribute("adjacent_cell")
             else:
+                if any(len(cell)!=4 for cell in self.mesh.cells):
+                    # refuse before anything is stored on the mesh: a second attempt must fail alike
+                    raise ValueError("cell adjacency is only implemented for tetrahedral meshes")
                 self._adjC2C = self.mesh.cell_faces.create_attribute("adjacent_cell", int, 1, default_value= config.NOT_AN_ID)
                 for iC, cell in enumerate(self.mesh.cells):
                     v0,v1,v2,v3 = cell
